@@ -77,6 +77,9 @@ class Executor(Engine):
             m = fn.attr
             if m == "longest_prefix_item" and isinstance(fn.value, ast.Attribute) and fn.value.attr == "trie":
                 return "lib.StringTrie.longest_prefix_item"
+            if isinstance(fn.value, ast.Name) and ("api", fn.value.id) in self.repo.classes and f"api.{fn.value.id}.{m}" in self.contracts \
+                    and (st is None or fn.value.id not in st.env):
+                return f"api.{fn.value.id}.{m}"      # call through the class: classmethod / staticmethod
             # method on a converter / record: decided by the receiver's class when known
             for cls in ("Converter", "Record"):
                 q = f"api.{cls}.{m}"
@@ -208,6 +211,8 @@ class Executor(Engine):
             if any(isinstance(d, ast.Name) and d.id == "classmethod" for d in fnode.decorator_list):
                 pos_params = pos_params[1:]
             else:
+                if recv is None:
+                    raise Unsupported("instance method called without a receiver")
                 states = [(st, {pos_params[0]: recv})]
                 pos_params = pos_params[1:]
         if any(isinstance(x, ast.Starred) for x in call.args):
@@ -279,6 +284,12 @@ class Executor(Engine):
         if q.startswith("ctor."):
             return self.do_ctor(q[5:], call, st, catching)
         recv = None
+        if isinstance(call.func, ast.Attribute) and isinstance(call.func.value, ast.Name) and ("api", call.func.value.id) in self.repo.classes \
+                and call.func.value.id not in st.env:
+            outs = []
+            for s, b in self.bind_args(q, call, None, st, catching):
+                outs += [(s, b)] if isinstance(b, Outcome) else self.apply_contract(q, b, s, self.where(call))
+            return outs
         if isinstance(call.func, ast.Attribute):
             rs = self.pure_eval(call.func.value, st, catching)
             if len(rs) != 1:
@@ -347,6 +358,9 @@ class Executor(Engine):
                         rai.append((names, when, ast.unparse(cnode)[:80]))
                         rai_unch.append((names, when, unchanged))
                     elif f == "ensures":
+                        if any(kw.arg == "native" for kw in cnode.keywords):
+                            self.ctx.notes.append(f"clause of {q} checked natively only (bounded): {ast.unparse(cnode.args[0])[:60]}")
+                            continue
                         if result is not None:
                             env2 = dict(env)
                             env2["result"] = result
@@ -361,7 +375,7 @@ class Executor(Engine):
         return {"requires": req, "raises": rai, "ensures": ens, "pure": pure, "modifies": modifies, "env": env,
                 "may_raise": may, "raises_unchanged": rai_unch}
 
-    def ev_post(self, node, env, post, pre):
+    def ev_post(self, node, env, post, pre, marker="old", pre_env=None):
         """Evaluate a postcondition: old(e) sub-expressions are evaluated in the pre-state."""
         outer = self
 
@@ -370,7 +384,7 @@ class Executor(Engine):
                 inner.olds = {}
 
             def visit_Call(inner, n):
-                if isinstance(n.func, ast.Name) and n.func.id == "old" and len(n.args) == 1:
+                if isinstance(n.func, ast.Name) and n.func.id == marker and len(n.args) == 1:
                     name = f"__old{len(inner.olds)}"
                     inner.olds[name] = n.args[0]
                     return ast.copy_location(ast.Name(id=name, ctx=ast.Load()), n)
@@ -381,7 +395,7 @@ class Executor(Engine):
         new = rw.visit(copy.deepcopy(node))
         env2 = dict(env)
         for name, e in rw.olds.items():
-            env2[name] = self.ev(e, env, pre)
+            env2[name] = self.ev(e, pre_env if pre_env is not None else env, pre)
         return self.ev(new, env2, post)
 
     def result_type(self, q):
@@ -739,8 +753,8 @@ class Executor(Engine):
                     if not isinstance(lst, VList):
                         raise Unsupported(f"{name}.append on non-list")
                     s2 = s1.copy()
-                    n0 = lst.n
-                    s2.env[name] = VList(Add(n0, Int(1)), lambda i, lst=lst, v=v, n0=n0: vite(self.ctx, Eq(i, n0), v, lst.at(i)), lst.ety)
+                    from .symex import concat_lists
+                    s2.env[name] = concat_lists(self.ctx, lst, VList(Int(1), lambda i, v=v: v, lst.ety))
                     outs.append((s2, Outcome("normal")))
                 return outs
             if isinstance(s.value.func, ast.Attribute) and s.value.func.attr in ("append", "sort", "add", "extend") \
@@ -799,8 +813,8 @@ class Executor(Engine):
             if isinstance(cur, VOpt):
                 cur = cur.val
             if m == "append" and isinstance(cur, VList):
-                n0 = cur.n
-                new = VList(Add(n0, Int(1)), lambda i, cur=cur, v=v, n0=n0: vite(c, Eq(i, n0), v, cur.at(i)), cur.ety)
+                from .symex import concat_lists
+                new = concat_lists(c, cur, VList(Int(1), lambda i, v=v: v, cur.ety))
             elif m == "sort" and isinstance(cur, VList) and not call.args and not call.keywords:
                 new = self.sorted_list(cur)
             elif m == "add" and isinstance(cur, VSet):
@@ -850,11 +864,15 @@ class Executor(Engine):
             if isinstance(cont, VOpt):
                 cont = cont.val
             if isinstance(cont, VDict) and getattr(cont, "empty", False):
-                new = VDict(lambda k, key=key: veq(self.ctx, k, key), lambda k, v=v: v, ty_of(key), ty_of(v))
+                typed = cont.kty != "str" or cont.vty != "str"
+                new = VDict(lambda k, key=key: veq(self.ctx, k, key), lambda k, v=v: v, cont.kty if typed else ty_of(key), cont.vty if typed else ty_of(v))
+                new.default = getattr(cont, "default", None)
                 return self.assign_target(target.value, new, st)
             if isinstance(cont, VDict):
+                dflt = getattr(cont, "default", None)
                 new = VDict(lambda k, cont=cont, key=key: Or(veq(self.ctx, k, key), cont.has(k)),
                             lambda k, cont=cont, key=key, v=v: vite(self.ctx, veq(self.ctx, k, key), v, cont.get(k)), cont.kty, cont.vty)
+                new.default = dflt
                 return self.assign_target(target.value, new, st)
             raise Unsupported("subscript store on " + type(cont).__name__)
         raise Unsupported("assignment target")
@@ -863,7 +881,17 @@ class Executor(Engine):
         if len(s.targets) != 1:
             raise Unsupported("chained assignment")
         outs = []
-        for s1, v in self.cev(s.value, st, catching):
+        try:
+            evaluated = self.cev(s.value, st, catching)
+        except Unsupported as e:
+            # a local that only feeds messages (e.g. `msg = "".join(...)`): keep it opaque; any real use fails later
+            if isinstance(s.targets[0], ast.Name) and not self.has_contracted_call(s.value) and isinstance(s.value, (ast.Call, ast.JoinedStr)):
+                self.ctx.dropped.add(f"opaque local {s.targets[0].id} = {ast.unparse(s.value)[:40]} ({e})")
+                s2 = st.copy()
+                s2.env[s.targets[0].id] = VOpaque()
+                return [(s2, Outcome("normal"))]
+            raise
+        for s1, v in evaluated:
             if isinstance(v, Outcome):
                 outs.append((s1, v))
             else:
@@ -873,7 +901,31 @@ class Executor(Engine):
     def st_AnnAssign(self, s, st, catching):
         if s.value is None:
             return [(st, Outcome("normal"))]
-        return self.st_Assign(ast.Assign(targets=[s.target], value=s.value, lineno=s.lineno), st, catching)
+        outs = self.st_Assign(ast.Assign(targets=[s.target], value=s.value, lineno=s.lineno), st, catching)
+        # an empty container literal takes its element types from the annotation
+        if isinstance(s.target, ast.Name):
+            ann = ast.unparse(s.annotation)
+            m = re.fullmatch(r"(?:defaultdict|dict|Dict|Mapping)\[(.+)\]", ann)
+            if m:
+                try:
+                    from .symex import _split_top
+                    k, v = _split_top(m.group(1), ",")
+                    kty, vty = parse_ty(k), parse_ty(v)
+                except Unsupported:
+                    return outs
+                res = []
+                for s1, o in outs:
+                    d = s1.env.get(s.target.id)
+                    if isinstance(d, VDict) and getattr(d, "empty", False):
+                        junk = self.ctx.fresh("junk", vty)
+                        nd = VDict(lambda k_: FALSE, lambda k_, junk=junk: junk, kty, vty)
+                        nd.empty = True
+                        nd.default = getattr(d, "default", None)
+                        s1 = s1.copy()
+                        s1.env[s.target.id] = nd
+                    res.append((s1, o))
+                return res
+        return outs
 
     def st_Return(self, s, st, catching):
         if s.value is None:
@@ -968,14 +1020,14 @@ class Executor(Engine):
                     if isinstance(t, ast.Subscript) and isinstance(t.value, ast.Name):
                         names.add(t.value.id)
                     if isinstance(t, ast.Attribute):
-                        heap_fields.add(t.attr)
+                        heap_fields.add((ast.unparse(t.value), t.attr))
                     if isinstance(t, ast.Subscript) and isinstance(t.value, ast.Attribute):
-                        heap_fields.add(t.value.attr)
+                        heap_fields.add((ast.unparse(t.value.value), t.value.attr))
             if isinstance(n, ast.Call) and isinstance(n.func, ast.Attribute) and n.func.attr in ("append", "add", "extend", "update", "sort", "pop"):
                 if isinstance(n.func.value, ast.Name):
                     names.add(n.func.value.id)
                 elif isinstance(n.func.value, ast.Attribute):
-                    heap_fields.add(n.func.value.attr)
+                    heap_fields.add((ast.unparse(n.func.value.value), n.func.value.attr))
                 elif isinstance(n.func.value, ast.Subscript) and isinstance(n.func.value.value, ast.Name):
                     names.add(n.func.value.value.id)
             if isinstance(n, ast.For):
@@ -989,14 +1041,22 @@ class Executor(Engine):
         s2 = st.copy()
         for n in sorted(names):
             if n in st.env and isinstance(st.env[n], V) and not isinstance(st.env[n], (VOpaque, VExc)):
-                try:
-                    s2.env[n] = c.fresh("hv_" + n, ty_of(st.env[n]))
-                except Unsupported:
-                    raise
-        for (cls, f) in list(FIELDS_KEYS()):
-            if f in heap_fields:
-                arr = st.harr(c, cls, f)
-                s2.heap[(cls, f)] = c.const(f"H_{cls}_{f}", arr.sort)
+                s2.env[n] = c.fresh("hv_" + n, ty_of(st.env[n]))
+                if isinstance(st.env[n], VDict) and getattr(st.env[n], "default", None):
+                    s2.env[n].default = st.env[n].default
+        for recv_src, f in sorted(heap_fields):
+            recv = st.env.get(recv_src) if recv_src.isidentifier() and recv_src not in names else None
+            if isinstance(recv, VRef) and f in FIELDS[recv.cls]:
+                # the loop writes this field of one fixed object only: havoc exactly that location
+                arr = s2.harr(c, recv.cls, f)
+                fresh_val = c.const(f"hv_{recv_src}_{f}", c.sort(FIELDS[recv.cls][f]))
+                s2.heap[(recv.cls, f)] = Store(arr, recv.t, fresh_val)
+            else:
+                for (cls, f2) in list(FIELDS_KEYS()):
+                    if f2 == f:
+                        arr = s2.harr(c, cls, f2)
+                        s2.heap[(cls, f2)] = c.const(f"H_{cls}_{f2}", arr.sort)
+        # calls to non-pure contracted functions inside the loop body: havoc everything they may modify
         return s2
 
     def invariant(self, key, env, st, extra):
@@ -1007,6 +1067,8 @@ class Executor(Engine):
         env2 = {}
         outer = self.loop_stack[-1] if self.loop_stack else {}
         for p in params:
+            if p == "_pre":
+                continue
             if p in extra:
                 env2[p] = extra[p]
             elif p in outer:
@@ -1020,7 +1082,10 @@ class Executor(Engine):
             raise Unsupported("invariant must be a single return")
         self.in_spec += 1
         try:
-            return truthy(self.ctx, self.ev(body[0].value, env2, st))
+            # _pre(e): e evaluated in the function's pre-state over its parameters
+            pre_env = dict(self.fn_pre_env)
+            pre_env.update({k: v for k, v in env2.items() if k not in pre_env})
+            return truthy(self.ctx, self.ev_post(body[0].value, env2, st, self.fn_pre, marker="_pre", pre_env=pre_env))
         finally:
             self.in_spec -= 1
 
